@@ -80,7 +80,7 @@ def generate(rng, tier):
     for ti, t in enumerate(trees(rng, tier)):
         lines = [[len(t)] + sum([E.s(p) for p in t], [])]
         for p in pats:
-            for api in (0, 1, 2, 3):
+            for api in (0, 1, 2, 3, 5):
                 lines.append([api] + E.s(p))
         cases.append(("t%d" % ti, lines))
     # validity stream
@@ -152,16 +152,16 @@ def strict(ps, xs):
 
 
 def compare(lines, m, i):
-    """equality, except for patterns mixing ** and * where the model only over-approximates glob-match:
-    there the implementation's selection must be a subset of the model's"""
+    """equality, except for patterns mixing ** and *, where the model does not reproduce glob-match"""
     if m is None or i is None or len(m) != len(i):
         return False
     paths, reqs = parse(lines)
     for (api, pat), a, b in zip(reqs, m[1:], i[1:]):
         ps = pat.split(".")
         if "*" in ps and "**" in ps and len(a) >= 2 and len(b) >= 2:
-            if not set(b[2:]) <= set(a[2:]):
-                return False
+            # glob-match's backtracking over `**` followed by a repeated name is not modelled (it can miss a
+            # direct match and fall back to the branch reading): mixed patterns are not compared with the
+            # model; they are judged by the monitor's liberal / strict readings
             continue
         if a != b:
             return False
@@ -183,7 +183,7 @@ def monitor(lines, out):
             continue
         if api == 4:
             continue
-        if api in (0, 1) and len(pat) > 1000:
+        if api in (0, 1, 5) and len(pat) > 1000:
             if o[0] != 400:
                 fails.append("too-long-accepted: api %d accepted a %d-byte path" % (api, len(pat)))
             continue
